@@ -56,3 +56,5 @@ pub mod broker;
 pub mod perf;
 pub mod schedule;
 pub mod strategy;
+#[cfg(feature = "verif")]
+pub mod verif;
